@@ -20,7 +20,8 @@ EXPLANATION = (
     "difference between exit and entry; the header is only accounted after the body was found complete; (d) "
     "collect/collect_to_writer/can_collect/read choose full drain iff the frame is finished, else the "
     "window-retaining routine, which offers len - window_size only when len > window_size. "
-    "Not decided: equality of streams across all schedules (runtime values).")
+    "(e) the output window the drains read through is a byte queue under every interleaving (C04's rule instances, reported "
+    "as C06.window.*). Not decided: equality of streams across all schedules (runtime values).")
 ASSUMPTIONS = ["Drop of the guard runs on every exit (Rust semantics)", "C06.window.* are C04's rule instances (the output window is a byte queue)",
                "counter changes made by callees of decode_from_to (init) are not summed (the early return sits before them in no path)"]
 
@@ -290,7 +291,8 @@ def run(ctx):
     # segments computed from them) is a necessary condition of this property.  Same rule instances as C04.
     from . import c04
     start = len(ctx.obs)
-    c04.run(ctx)
+    with ctx.entering("C04"):
+        c04.run(ctx)
     for o in ctx.obs[start:]:
         if o.rule.startswith("C04."):
             o.rule = "C06.window." + o.rule.split(".", 1)[1]
